@@ -3,6 +3,7 @@ module verifharness
 go 1.21
 
 require (
+	github.com/klauspost/compress v1.13.6
 	github.com/linuxboot/fiano v0.0.0
 	github.com/tjfoc/gmsm v1.4.1
 	github.com/ulikunitz/xz v0.5.11
